@@ -14,7 +14,6 @@ from harness.props.C04_util import A, W, R, CIO, TICK, EMIT
 PID = "C05"
 XIO = 6
 KEY_BRIDGE = "bridge-created-under-traffic"
-KEY_FILTER = "filter-reset-races-put-message"
 PRE = "From Whad Require Import C04.Model C05.Model.\nOpen Scope N_scope."
 
 
@@ -328,16 +327,7 @@ def oracle_bridge(case, res):
     obs, info = res["obs"], res["info"]
     dead_known = set()
     if info["crashed"] or obs["in"]["dead"] or obs["out"]["dead"]:
-        # known class: the reader of a device carrying a stale filter dies with TypeError when the
-        # bridge resets that filter under traffic (two unsynchronised loads in Device.put_message)
         key = None
-        crashed = dict(info["crashed"])
-        for k, r in (("in", "R0"), ("out", "R1")):
-            if crashed.get(r) == "TypeError" and case.get(k, {}).get("filt") is not None and bridge_class(case, res):
-                dead_known.add(k)
-                crashed.pop(r)
-        if not crashed and dead_known and not any(obs[k]["dead"] and k not in dead_known for k in ("in", "out")):
-            key = KEY_FILTER
         out.append(("a thread died while the bridge was being created", {}, info["crashed"], key))
     quiet = (not res["capped"]) and obs["done"] and info["wire_left"] == 0 and info["spont_left"] == 0 \
         and all(not obs[k]["ev_o"] and not obs[k]["ev_w"] for k in ("in", "out")) \
